@@ -311,9 +311,8 @@ class Contract:
             N = len(bytecode)
             while pc < N:
                 try:
-                    opcode = bytecode[pc]
-                    if type(opcode) is not int:
-                        raise NotConcreteError(f"symbolic opcode at pc={pc}")
+                    # note: a byte of a symbolic chunk may still have a concrete value
+                    opcode = int_of(bytecode[pc], f"symbolic opcode at pc={pc}")
 
                     if opcode == OP_JUMPDEST:
                         jumpdests.add(pc)
